@@ -34,7 +34,7 @@ fn main() {
     let mut rep = Report::new(
         "stressmc",
         "C07",
-        "SAMPLING (not exhaustive): 64 free-running reader threads x 400 seeded reads each over a pack of 60 compressed (zstd) + 40 raw clusters of 4095 30-byte blobs, 2 rounds on freshly opened packs; every read is compared with the stored bytes; a 60 s watchdog reports a reader that never returns; a case = one read, non-trivial = a read (all are)",
+        "SAMPLING (not exhaustive): 64 free-running reader threads x 400 seeded reads each over a pack of 60 compressed (zstd) + 40 raw clusters of 4095 30-byte blobs, plus one zero-length content alone in the last cluster, 2 rounds on freshly opened packs; reads = whole stream / get_slice / stream of a cut / slice and stream of a cut of a cut; every read is compared with the stored bytes; a 60 s watchdog reports a reader that never returns; a case = one read, non-trivial = a read (all are)",
     );
     rep.exhaustive = false;
     rep.caps.push("free-running threads: schedules are sampled, not enumerated (the deciding engine for the publication protocol is loommc)".into());
@@ -57,6 +57,8 @@ fn main() {
                 i += 1;
             }
         }
+        // one zero-length content at the very end (alone in the last cluster)
+        c.add_content(Box::new(std::io::Cursor::new(vec![])), jbk::creator::CompHint::Yes).map_err(|e| e.to_string())?;
         c.finalize().map_err(|e| e.to_string())?;
         Ok(i)
     });
@@ -92,12 +94,37 @@ fn main() {
                     x ^= x << 17;
                     // half of the threads hammer the same few clusters, the others roam
                     let idx = if t % 2 == 0 { ((x % 3) * 4095 * 7 + (x >> 20) % 4095) as u32 % total } else { (x % total as u64) as u32 };
+                    if k % 50 == 49 {
+                        // the zero-length content
+                        let r = pack.get_content(jbk::ContentIdx::from(total)).map_err(|e| format!("empty content: {e}"))?.ok_or_else(|| "empty content: none".to_string())?;
+                        let mut v = vec![];
+                        r.stream().read_to_end(&mut v).map_err(|e| format!("empty content: {e}"))?;
+                        if r.size().into_u64() != 0 || !v.is_empty() {
+                            return Err(format!("the zero-length content reads {} bytes (thread {t})", v.len()));
+                        }
+                        reads.fetch_add(1, Ordering::Relaxed);
+                        continue;
+                    }
                     let want = blob(idx);
                     let r = pack.get_content(jbk::ContentIdx::from(idx)).map_err(|e| format!("content {idx}: {e}"))?.ok_or_else(|| format!("content {idx}: none"))?;
                     if r.size().into_u64() != BLOB as u64 {
                         return Err(format!("content {idx}: size {}", r.size().into_u64()));
                     }
-                    match k % 3 {
+                    match k % 4 {
+                        3 => {
+                            // a cut of a cut, as a slice and as a stream
+                            let o = (x >> 33) as usize % BLOB;
+                            let l = BLOB - o;
+                            let o2 = (x >> 41) as usize % (l + 1);
+                            let n2 = (x >> 49) as usize % (l - o2 + 1);
+                            let inner = r.cut(jbk::Offset::new(o as u64), jbk::Size::new(l as u64)).cut(jbk::Offset::new(o2 as u64), jbk::Size::new(n2 as u64));
+                            let s = inner.get_slice(jbk::Offset::zero(), n2).map_err(|e| format!("content {idx}: {e}"))?;
+                            let mut v = vec![];
+                            inner.stream().read_to_end(&mut v).map_err(|e| format!("content {idx}: {e}"))?;
+                            if s[..] != want[o + o2..o + o2 + n2] || v[..] != want[o + o2..o + o2 + n2] {
+                                return Err(format!("content {idx}: cut({o},{l}).cut({o2},{n2}) yields other bytes (thread {t})"));
+                            }
+                        }
                         0 => {
                             let mut v = vec![];
                             r.stream().read_to_end(&mut v).map_err(|e| format!("content {idx}: {e}"))?;
